@@ -49,8 +49,10 @@ pub fn tokenize(source: &str, file_id: &FileId) -> (Vec<Token>, Vec<Diagnostic>)
                         line += 1;
                         col = 0;
                     }
-                    TokenType::Comment => {
-                        // Comments can have new lines embedded
+                    TokenType::Comment
+                    | TokenType::SingleByteString
+                    | TokenType::DoubleByteString => {
+                        // Comments and character strings can have new lines embedded
                         for c in lexer.slice().chars() {
                             match c {
                                 '\n' => {
